@@ -38,6 +38,11 @@ var absErr = []string{
 	`(principal, action, resource) when { true } when { User::"nobody".name == "x" };`,
 	`(principal, action, resource) when { decimal("1.23456") == decimal("1.0") };`,
 	`(principal, action, resource) when { principal.getTag("zz") == 1 };`,
+	// a connective checks BOTH operands even when the left one decides nothing, wherever its value is consumed
+	`(principal, action, resource) when { (true && context.n) == 1 };`,
+	`(principal, action, resource) unless { (false || context.n) == 7 };`,
+	`(principal, action, resource) when { [true && 1].contains(1) };`,
+	`(principal, action, resource) when { {k: false || "x"}.k == "x" };`,
 }
 
 type sliceIter struct {
